@@ -17,8 +17,8 @@ from sim import shims, trace
 ID = "C18"
 ENGINE = "threadsim"
 LEVEL = "exploration"
-TIERS = {"quick": {"runs": 15000, "timeout": 1200}, "thorough": {"runs": 480000, "timeout": 7200,
-                                                                "lane_timeout": 1800}}
+TIERS = {"quick": {"runs": 15000, "timeout": 3600, "lane_timeout": 1800}, "thorough": {"runs": 480000, "timeout": 21600,
+                                                                "lane_timeout": 10800}}
 HASHSEEDS = [0, 1]
 HASHSEEDS_THOROUGH = [0, 1, 2, 3, 4, 5, 6, 7]
 HASH_DEPENDENT = True
